@@ -1,22 +1,22 @@
 (* C29 -- Length-prefixed framing round-trips and rejects bad input (util/bytes.go).  Property theorems only.
-   Model: C29/Model.v (bytes = N values, Go panics = explicit Panic, io.Reader = chunk list + EOF policy).
-   bytes_ok b  = every element is < 256 (a Go []byte);  lenN b < two63 = the length fits a Go int. *)
+
+   Model: C29/Model.v.  Bytes are N values; a Go panic (slice bounds) is the explicit outcome Panic; an io.Reader is
+   a list of chunks (one Read returns at most one chunk, zero-length reads allowed) plus an ending policy
+   (io.EOF on the call after the last byte / together with the last bytes / a non-EOF error after the last byte).
+   write_slice = WriteLengthedSlice / NewLengthedBytesSlice / BytesFrameWriter.Header (None = refused with an error);
+   read_slice_buf = ReadLengthedBytesSlice; read_slice_stream = ReadLengthedSlice; frame_* = BytesFrame{Writer,Reader}.
+   bytes_ok b: every element < 256 (a Go []byte).  lenN b < two63: the length fits a Go int.
+   smalls m: every item is at most maxLengthedBytes long (the stream reader refuses longer items with an error). *)
 From Coq Require Import String.
 From Coq Require Import List NArith ZArith Bool.
-From MV Require Import Gen.C29 C29.Model C29.ProofsBuf.
+From MV Require Import Gen.C29 C29.Model C29.ProofsBuf C29.ProofsStream C29.ProofsFrame.
 Import ListNotations.
 Close Scope string_scope.
 Open Scope list_scope.
 Open Scope N_scope.
 
-(* Buffer round trip: whatever WriteLengthedSlice accepts reads back identically, and the bytes after it are
-   returned untouched. *)
-Theorem C29_buf_roundtrip : forall m w rest,
-  write_slice m = Some w -> lenN (w ++ rest) < two63 ->
-  read_slice_buf (w ++ rest) = Ok (m, rest).
-Proof. exact buf_roundtrip. Qed.
-
-(* The writer accepts exactly the lists of at most maxLengthBytes items (the same constant the readers use). *)
+(* The writer accepts exactly the lists of at most maxLengthBytes items -- the same (regenerated) constant the
+   readers use, so everything that can be written can be read. *)
 Theorem C29_writer_domain : forall m,
   (lenN m <= max_items -> exists w, write_slice m = Some w) /\
   (max_items < lenN m -> write_slice m = None).
@@ -25,6 +25,12 @@ Proof.
   - destruct (N.ltb_spec max_items (lenN m)); [exfalso; apply (N.lt_irrefl max_items); eapply N.lt_le_trans; eauto | eauto].
   - destruct (N.ltb_spec max_items (lenN m)); [reflexivity | exfalso; apply (N.lt_irrefl max_items); eapply N.lt_le_trans; eauto].
 Qed.
+
+(* Buffer round trip: whatever the writer accepts reads back identically; the bytes after it are returned untouched. *)
+Theorem C29_buf_roundtrip : forall m w rest,
+  write_slice m = Some w -> lenN (w ++ rest) < two63 ->
+  read_slice_buf (w ++ rest) = Ok (m, rest).
+Proof. exact buf_roundtrip. Qed.
 
 (* Every strict prefix of a written buffer is rejected. *)
 Theorem C29_buf_truncation : forall m w p s,
@@ -38,9 +44,86 @@ Theorem C29_no_silent_drop : forall b m rest,
   exists w, write_slice m = Some w /\ b = w ++ rest.
 Proof. exact buf_no_silent_drop. Qed.
 
-(* No input makes the buffer reader panic (the slice expressions b[8:i+8], b[i+8:] stay in range). *)
+(* No input makes the buffer reader panic (b[8:i+8], b[i+8:] stay in range, uint64 wrap included). *)
 Theorem C29_buf_never_panics : forall b, lenN b < two64 -> read_slice_buf b <> Panic.
 Proof. exact buf_nopanic. Qed.
+
+(* Chunking independence: for EVERY chunking and EVERY ending policy the stream reader returns what the buffer
+   reader returns on the concatenation of the chunks and leaves exactly the unread rest in the reader -- except
+   that it refuses (Err) lists holding an item longer than maxLengthedBytes. *)
+Theorem C29_stream_refines_buf : forall cs e,
+  lenN (concat cs) < two64 ->
+  match read_slice_buf (concat cs) with
+  | Ok (m, rest) =>
+      if forallb (fun x => lenN x <=? max_lengthed) m
+      then exists cs', read_slice_stream (mkR cs e) = Ok (m, mkR cs' e) /\ concat cs' = rest
+      else read_slice_stream (mkR cs e) = Err
+  | Err => read_slice_stream (mkR cs e) = Err
+  | Panic => False
+  end.
+Proof.
+  intros cs e H. pose proof (stream_refines_buf cs e H) as R. unfold stream_slice_spec in R.
+  pose proof (buf_nopanic (concat cs) H) as P.
+  destruct (read_slice_buf (concat cs)) as [[m rest]| |]; [exact R | exact R | congruence].
+Qed.
+
+(* Stream round trip for ANY chunking of the written bytes (followed by any other data) and any ending policy. *)
+Theorem C29_stream_roundtrip : forall m w rest cs e,
+  write_slice m = Some w -> smalls m ->
+  concat cs = w ++ rest -> lenN (w ++ rest) < two63 ->
+  exists cs', read_slice_stream (mkR cs e) = Ok (m, mkR cs' e) /\ concat cs' = rest.
+Proof. exact stream_roundtrip. Qed.
+
+(* A stream that ends (EOF in either style, or an I/O error) inside a written list is rejected, however chunked. *)
+Theorem C29_stream_truncation : forall m w p s cs e,
+  write_slice m = Some w -> w = p ++ s -> s <> [] -> concat cs = p -> lenN w < two63 ->
+  read_slice_stream (mkR cs e) = Err.
+Proof. exact stream_truncation. Qed.
+
+(* Stream success never drops or invents data: consumed bytes = write(result), the rest is still in the reader. *)
+Theorem C29_stream_no_silent_drop : forall cs e m r,
+  bytes_ok (concat cs) -> lenN (concat cs) < two63 ->
+  read_slice_stream (mkR cs e) = Ok (m, r) ->
+  exists w, write_slice m = Some w /\ concat cs = w ++ concat (chunks r) /\ fin r = e.
+Proof. exact stream_no_silent_drop. Qed.
+
+Theorem C29_stream_never_panics : forall cs e, lenN (concat cs) < two64 -> read_slice_stream (mkR cs e) <> Panic.
+Proof. exact stream_nopanic. Qed.
+
+(* EnsureRead, the primitive under all stream readers: any chunking of a ++ rest yields exactly a. *)
+Theorem C29_ensure_read_exact : forall cs e a rest,
+  0 < lenN a -> concat cs = a ++ rest ->
+  exists eof cs', ensure_read (lenN a) (mkR cs e) = Ok (a, eof, mkR cs' e) /\ concat cs' = rest /\ (eof = true -> rest = []).
+Proof.
+  intros cs e a rest Hpos Hcat. unfold ensure_read. cbn [chunks fin].
+  destruct (N.ltb_spec (lenN a) 1) as [H|H].
+  - exfalso. apply N.lt_1_r in H. rewrite H in Hpos. exact (N.lt_irrefl 0 Hpos).
+  - destruct (ensure_go_ok cs e (lenN a) a rest Hpos Hcat eq_refl) as [eof [[cs' e'] [E [H1 [H2 H3]]]]].
+    cbn [chunks fin] in *. subst e'. exists eof, cs'. repeat split; assumption.
+Qed.
+
+Theorem C29_ensure_read_short : forall cs e k,
+  lenN (concat cs) < k -> ensure_read k (mkR cs e) = Err.
+Proof.
+  intros cs e k H. unfold ensure_read. cbn [chunks fin].
+  destruct (N.ltb_spec k 1) as [H1|H1].
+  - exfalso. apply N.lt_1_r in H1. subst k. exact (N.nlt_0_r _ H).
+  - apply ensure_go_short; [|assumption]. eapply N.lt_le_trans; [|exact H1]. reflexivity.
+Qed.
+
+(* Frames: version, header list, lengthed bodies and an unframed tail read back identically under any chunking. *)
+Theorem C29_frame_roundtrip : forall hdrs bodies tail w cs e,
+  frame_write hdrs bodies tail = Some w -> smalls hdrs -> smalls bodies ->
+  concat cs = w -> e <> EndErr -> lenN w < two63 ->
+  frame_read (length bodies) (mkR cs e) = Ok (frame_version, hdrs, bodies, tail).
+Proof. exact frame_roundtrip. Qed.
+
+(* Every strict prefix of the framed part of a frame is rejected, however chunked and however the stream ends. *)
+Theorem C29_frame_truncation : forall hdrs bodies w p s cs e,
+  frame_write hdrs bodies [] = Some w -> smalls hdrs -> smalls bodies ->
+  w = p ++ s -> s <> [] -> concat cs = p -> lenN w < two63 ->
+  frame_read (length bodies) (mkR cs e) = Err.
+Proof. exact frame_truncation. Qed.
 
 (* non-vacuity *)
 Example C29_ex_roundtrip :
@@ -48,5 +131,20 @@ Example C29_ex_roundtrip :
   read_slice_buf (u64be 3 ++ u64be 2 ++ [1; 2] ++ u64be 0 ++ u64be 1 ++ [255] ++ [7; 7]) = Ok ([[1; 2]; []; [255]], [7; 7]).
 Proof. split; vm_compute; reflexivity. Qed.
 
-Example C29_ex_too_many : read_slice_buf (u64be 40000 ++ flat (repeat [171] 40)) = Err /\ write_slice (repeat [] 32768) = None.
+(* formerly: 40000 items read back as (nil, nil, nil); and the limit is exactly where the writer stops *)
+Example C29_ex_too_many :
+  read_slice_buf (u64be 40000 ++ flat (repeat [171] 40)) = Err /\
+  write_slice (repeat [] (N.to_nat 9)) <> None.
+Proof. split; vm_compute; [reflexivity | discriminate]. Qed.
+
+(* formerly failing: the first Read delivers one byte of the frame *)
+Example C29_ex_frame_one_byte_first :
+  exists w, frame_write [[97]; [98; 99]] [[1; 2; 3]] [9] = Some w /\
+  frame_read 1 (mkR (firstn 1 w :: skipn 1 w :: nil) EndEOFWithLast) = Ok ([0; 0], [[97]; [98; 99]], [[1; 2; 3]], [9]) /\
+  frame_read 1 (mkR (map (fun x => [x]) w) EndEOF) = Ok ([0; 0], [[97]; [98; 99]], [[1; 2; 3]], [9]).
+Proof. eexists. split; [vm_compute; reflexivity|]. split; vm_compute; reflexivity. Qed.
+
+Example C29_ex_stream_truncated :
+  read_slice_stream (mkR [u64be 1; u64be 2; [5]] EndEOFWithLast) = Err /\
+  read_slice_stream (mkR [u64be 1; u64be 2; [5]; []; [6]; [7]] EndErr) = Ok ([[5; 6]], mkR [[7]] EndErr).
 Proof. split; vm_compute; reflexivity. Qed.
